@@ -18,6 +18,9 @@ def env_variants():
              stat=Stat(INT=4000, STR=4000, LUK=4000, DEX=4000, magic_attack=2500, attack_power=2500, critical_rate=100,
                        critical_damage=50, boss_damage_multiplier=200, ignored_defence=92, final_damage_multiplier=40),
              hexa_skill_level=30, hexa_mastery_level=30, hexa_improvements_level=30, v_skill_level=30),
+        # 3: the all-zero corner of the level space (no 6th-job core owned: lower tiers are built, replacements are level 0)
+        dict(level=270, action_stat=ActionStat(), stat=Stat(INT=1000, STR=1000, LUK=1000, DEX=1000, magic_attack=100, attack_power=100),
+             hexa_skill_level=0, hexa_mastery_level=0, hexa_improvements_level=0, v_skill_level=0, v_improvements_level=0),
     ]
 
 
